@@ -523,3 +523,110 @@ Proof.
   - apply Nat.leb_le in L. rewrite do_all_exact. tauto.
   - apply Nat.leb_gt in L. split; [discriminate|intros [A _]; lia].
 Qed.
+
+(* ---- compose (fixed code): two or more non-variadic functions, each returning an error last,
+        the other results of each assignable to the parameters of the next ---- *)
+Definition compose_fn (t : aty) (ps rs : atys) : Prop :=
+  exists e, t = ASig ps rs false /\ alast rs = Some e /\ is_error e = true.
+
+(* the chain condition, stated on the list of (parameters, results) *)
+Fixpoint compose_links (l : list (atys * atys)) : Prop :=
+  match l with
+  | (_, rs) :: (((ps', _) :: _) as r) => assignable_all (ainit rs) ps' = true /\ compose_links r
+  | _ => True
+  end.
+
+Definition accepted_compose (typs : list aty) : Prop :=
+  2 <= length typs /\
+  exists l, Forall2 (fun t pr => compose_fn t (fst pr) (snd pr)) typs l /\ compose_links l.
+
+Lemma assignable_all_len rs ps : assignable_all rs ps = true -> alen rs = alen ps.
+Proof.
+  revert ps. induction rs as [|r rs IH]; intros [|p ps] H; cbn in *; try discriminate; try reflexivity.
+  apply andb_prop in H as [_ H]. f_equal. apply IH; exact H.
+Qed.
+
+(* compose_sigs collects (params, results without the error) of functions that satisfy compose_fn *)
+Lemma compose_sigs_exact typs : forall l,
+  compose_sigs typs = inl (Some l) <->
+  exists l0, Forall2 (fun t pr => compose_fn t (fst pr) (snd pr)) typs l0 /\
+             l = map (fun pr => (fst pr, ainit (snd pr))) l0.
+Proof.
+  induction typs as [|t r IH]; intros l; cbn [compose_sigs].
+  - split.
+    + intros H. injection H as <-. exists []. split; [constructor|reflexivity].
+    + intros (l0 & F & ->). inversion F; subst. reflexivity.
+  - split.
+    + intros H. destruct t; try discriminate H.
+      destruct variadic; [discriminate H|].
+      destruct (alen rs =? 0) eqn:Z; [discriminate H|]. apply Nat.eqb_neq in Z.
+      rewrite (anth_last rs Z) in H.
+      destruct (alast rs) as [e|] eqn:A; [|discriminate H].
+      destruct (is_error e) eqn:E; [|discriminate H].
+      destruct (compose_sigs r) as [[l'|]|g] eqn:C; try discriminate H.
+      injection H as <-.
+      destruct (proj1 (IH l') eq_refl) as (l0 & F & ->).
+      exists ((ps, rs) :: l0). split; [|reflexivity].
+      constructor; [exists e; cbn; auto|exact F].
+    + intros (l0 & F & ->). inversion F as [|? pr ? l0' (e & -> & A & E) F']; subst.
+      destruct pr as [ps rs]; cbn [fst snd] in *.
+      assert (Z : alen rs <> 0) by (destruct rs; [discriminate A|cbn; lia]).
+      destruct (alen rs =? 0) eqn:Z'; [apply Nat.eqb_eq in Z'; contradiction|].
+      rewrite (anth_last rs Z), A, E.
+      rewrite (proj2 (IH (map (fun pr => (fst pr, ainit (snd pr))) l0'))) by eauto.
+      reflexivity.
+Qed.
+
+Lemma compose_sigs_not_ok typs : compose_sigs typs <> inr Ok.
+Proof.
+  induction typs as [|t r IH]; cbn [compose_sigs]; [discriminate|].
+  destruct t; try discriminate. destruct variadic; [discriminate|].
+  destruct (alen rs =? 0); [discriminate|].
+  destruct (anth rs (alen rs - 1)); [|discriminate].
+  destruct (is_error a); [|discriminate].
+  destruct (compose_sigs r) as [[l|]|g]; try discriminate. exact IH.
+Qed.
+
+Lemma compose_chain_exact l0 : forall ps rs,
+  compose_chain (ainit rs) (map (fun pr => (fst pr, ainit (snd pr))) l0) = Ok <->
+  compose_links ((ps, rs) :: l0).
+Proof.
+  induction l0 as [|[ps' rs'] l0 IH]; intros ps rs; cbn [map compose_chain fst snd].
+  - cbn. tauto.
+  - cbn [compose_links]. rewrite <- (IH ps' rs'). split.
+    + intros H. destruct (alen (ainit rs) =? alen ps'); cbn [need] in H; [|discriminate H].
+      destruct (assignable_all (ainit rs) ps') eqn:S; cbn [need] in H; [|discriminate H]. tauto.
+    + intros [S H]. rewrite (assignable_all_len _ _ S), Nat.eqb_refl, S. cbn [need]. exact H.
+Qed.
+
+Theorem validate_exact_compose typs : add_compose typs = Ok <-> accepted_compose typs.
+Proof.
+  unfold accepted_compose, add_compose, compose_errorType.
+  destruct (2 <=? length typs) eqn:L; cbn [need].
+  2:{ apply Nat.leb_gt in L. split; [discriminate|intros [A _]; lia]. }
+  apply Nat.leb_le in L.
+  destruct typs as [|t0 r]; [cbn in L; lia|]. cbn [idx nth_error].
+  split.
+  - intros H. split; [exact L|].
+    destruct t0; try discriminate H.
+    destruct (compose_sigs (ASig ps rs variadic :: r)) as [[l|]|g] eqn:C; try discriminate H.
+    + apply compose_sigs_exact in C as (l0 & F & ->).
+      exists l0. split; [exact F|].
+      destruct l0 as [|[ps0 rs0] l0]; [inversion F|]. cbn [map fst snd] in H.
+      apply (compose_chain_exact l0 ps0 rs0). exact H.
+    + subst g. exfalso. exact (compose_sigs_not_ok _ C).
+  - intros (_ & l0 & F & K).
+    assert (C : compose_sigs (t0 :: r) = inl (Some (map (fun pr => (fst pr, ainit (snd pr))) l0)))
+      by (apply compose_sigs_exact; eauto).
+    inversion F as [|? [ps0 rs0] ? l0' (e & -> & A & E) F']; subst.
+    rewrite C. cbn [map fst snd]. apply (compose_chain_exact l0' ps0 rs0). exact K.
+Qed.
+
+Example compose_accepts :
+  add_compose [ASig (t1 (ABasic KInt)) (t2 (ABasic KString) (AErr)) false;
+               ASig (t1 (ABasic KString)) (t2 (ABasic KFloat64) (AErr)) false] = Ok /\
+  add_compose [ASig (t1 (ABasic KInt)) (t2 (ABasic KString) (AErr)) false;
+               ASig (t1 (ABasic KInt)) (t2 (ABasic KFloat64) (AErr)) false] = Err /\
+  add_compose [ASig (t1 (ASlice (ABasic KInt))) (t2 (ABasic KString) (AErr)) true;
+               ASig (t1 (ABasic KString)) (t2 (ABasic KFloat64) (AErr)) false] = Err.
+Proof. vm_compute. repeat split. Qed.
